@@ -64,6 +64,7 @@ def want(cfg, m, rng, tr, p):
 COMP = Component(
     spec="AllocRing", name="CircularAllocator", build=build, methods=lambda cfg: METHODS,
     has_arg=lambda m: m in ("alloc", "free"), gen_arg=gen_arg, want=want, tracker=Tracker,
+    shadow=lambda cfg: ["alloc", "free"],
     module=__name__,
     trace_extra=STEP_EXTRA + "\nPubMatches == Line.pub.start_idx = st.s /\\ Line.pub.end_idx = st.e "
                              "/\\ Line.pub.allocated = st.n",
